@@ -89,3 +89,14 @@ LEVEL_TEXT = ("Theorems about the executable integrated parser model (every inpu
 LEVEL_NOTE = ("Partial: memory safety / UB of the C and byte decoding are runtime-observed (ASan/UBSan on every request of the "
               "malformed stream); see PARTIAL for the theorem-level gaps.")
 TECHNIQUE = "Lean 4 proof about an executable model in a reporting monad + differential correspondence with an independent oracle"
+
+# ---- group gV: the byte-level character source ----
+LEAN_MODULES += ["CifModel.Props.C08Stream"]
+REQUIRED += ["CifModel.C03_ustream_total", "CifModel.C03_ustream_refusal_is_last", "CifModel.C03_cex_source_minus_one"]
+FAMILIES += ["ustream"]
+PARTIAL += [
+    "byte level: C03_ustream_total (every ustream_read_chars call of the model returns, for any bytes, request sizes and callback "
+    "policy, for every converter meeting `Laws`; UTF-8 / UTF-16 instances proved) and C03_ustream_refusal_is_last; the real ICU "
+    "converter's termination is observed by family `ustream` (per-case time limit), not proved; finding F-source-minus-one is "
+    "modelled as it is (C03_cex_source_minus_one): ustream_read_chars returns -1 with error code -1",
+]
